@@ -228,7 +228,20 @@ def gen_case(rng, pid, tier):
                 ops.append(['envput', '/scheduled/%s#%010d' % (APP, inst), ''])
             if rng.random() < 0.6:
                 ops.append(['envput', '/placement/%s/%s#%010d' % (host_name(rng.randint(1, n)), APP, inst), ''])
-            ops.append(['unsched', i, h, inst])
+            if rng.random() < 0.5:
+                ops.append(['unsched', i, h, inst])
+            else:
+                # the terminal event of a container is published; meanwhile the master may move the instance
+                ops.append(['publish', i, h, inst])
+                for _ in range(rng.randint(0, 3)):
+                    x = rng.random()
+                    if x < 0.4:
+                        ops.append(['step', i])
+                    elif x < 0.7:
+                        ops.append(['envdel', '/placement/%s/%s#%010d' % (host_name(h), APP, inst)])
+                    else:
+                        ops.append(['envput', '/placement/%s/%s#%010d' % (host_name(rng.randint(1, n)), APP, inst), ''])
+                ops.append(['run', i])
         else:
             p = rng.choice(['/running/%s#%010d' % (APP, rng.choice(list(cur))),
                             '/identity-groups/%s/%d' % (GROUP, rng.choice([0, 1])),
@@ -403,6 +416,8 @@ def run_impl(case, pid):
                 run.hits.append(fw.Hit(clause='unregister-foreign-host', call_site=site,
                                        detail='%s %s data %r as host%d' % (kind, path, before.data, req['host'])))
         elif req['kind'] == 'unsched':
+            if req.get('publish') and untracked(path):
+                return
             if kind != 'delete' or path != req['scheduled'] or req['placement'] not in server.nodes:
                 run.hits.append(fw.Hit(clause='unschedule-not-owner', call_site=site,
                                        detail='%s %s while %s %s' % (kind, path, req['placement'],
@@ -410,8 +425,12 @@ def run_impl(case, pid):
     server.observers.append(observer)
 
     # ---- observation ----------------------------------------------------------------------------
+    def untracked(path):
+        # the trace events and exit summaries `publish` writes: nodes outside the model's world
+        return path.startswith('/trace') or path.startswith('/finished')
+
     def state_line():
-        tab = server.table()
+        tab = {p_: v_ for p_, v_ in server.table().items() if not untracked(p_)}
         zk = ','.join('%d:%d.%d:%s' % ((names(p),) + encode_payload(d) + (o if o is not None else '-',))
                       for p, (d, o) in sorted(tab.items(), key=lambda kv: names(kv[0]))) or '-'
         svs = []
@@ -421,6 +440,8 @@ def run_impl(case, pid):
                 for path, rid in p.svc.presence[app].items():
                     pres.append('%d.%d.%d' % (int(app.rpartition('#')[2]), names(path), _rnum(rid)))
             nxt = '%s:%d' % (p.pending[0], names(p.pending[1])) if p.busy and p.pending else '-'
+            if p.busy and p.pending and untracked(p.pending[1]):
+                nxt = '*'
             svs.append('sv%d=%s/%s/%s/%s/%s/%s' % (
                 p.idx, p.client.session, nxt, p.res, '+'.join(pres) or '-',
                 '+'.join(str(x) for x in sorted(names(w) for w in _live_watches(p.client))) or '-',
@@ -433,7 +454,7 @@ def run_impl(case, pid):
 
     def emit(line):
         for path in server.nodes:     # make sure every existing path has an id before printing
-            if path != '/':
+            if path != '/' and not untracked(path):
                 names(path)
         run.op(line, state_line())
 
@@ -516,6 +537,13 @@ def run_impl(case, pid):
             run.tags.add('watch')
         resume(proc)
 
+    def pub_advance(proc):
+        """Run the tracked calls of a `publish` request (placement check, listing, delete) without pausing;
+        stop where the next call is one of its untracked writes (or it is done)."""
+        while proc.busy and not untracked(proc.pending[1]):
+            step(proc)
+            emit('step %d' % proc.idx)
+
     def items_of(proc, inst, data):
         """What on_create_request registers, as the property reads it: running, endpoints, identity."""
         hn = host_name(proc.idx + 1)
@@ -551,7 +579,7 @@ def run_impl(case, pid):
         emit('init %d' % n)
         for op in case['ops']:
             k = op[0]
-            if k in ('create', 'delete', 'retry', 'unreg', 'unsched', 'step', 'run', 'expire', 'reconnect'):
+            if k in ('create', 'delete', 'retry', 'unreg', 'unsched', 'publish', 'step', 'run', 'expire', 'reconnect'):
                 if not isinstance(op[1], int) or not 0 <= op[1] < n:
                     continue
                 proc = procs[op[1]]
@@ -613,7 +641,30 @@ def run_impl(case, pid):
                 start(proc, {'kind': 'unsched', 'site': '_unschedule', 'placement': pl, 'scheduled': sc}, _uns)
                 emit('start %d unsched %d %d' % (proc.idx, names(pl), names(sc)))
                 _run_to_idle(proc, step, emit)
+            elif k == 'publish':
+                # a container's terminal trace event: trace.app.zk.publish writes the event and the exit summary
+                # (untracked nodes; other clients may act between those writes), then `_unschedule`s the instance
+                # if it is still placed here - check and delete run without interleaving, as for `unsched`
+                _, _i, h, inst = op
+                if proc.busy:
+                    continue
+                iid = '%s#%010d' % (APP, inst)
+                pl, sc = z.path.placement(host_name(h), iid), z.path.scheduled(iid)
+
+                def _pub():
+                    tracezk._HOSTNAME = host_name(h)
+                    return tracezk.publish(proc.client, '123.45', iid, 'finished', '0.0', 'payload')
+                run.tags.add('publish')
+                start(proc, {'kind': 'unsched', 'site': 'publish', 'placement': pl, 'scheduled': sc, 'publish': True}, _pub)
+                emit('start %d unsched %d %d' % (proc.idx, names(pl), names(sc)))
+                pub_advance(proc)
             elif k == 'step':
+                if proc.busy and proc.req.get('publish'):
+                    # one untracked write, then whatever tracked calls follow it in one go
+                    step(proc)
+                    emit('ustep %d' % proc.idx)
+                    pub_advance(proc)
+                    continue
                 step(proc)
                 emit('step %d' % proc.idx)
             elif k == 'run':
@@ -695,6 +746,28 @@ def run_impl(case, pid):
 def _run_to_idle(proc, step, emit):
     k = 0
     while proc.busy and k < MAX_STEPS:
+        unt = proc.pending is not None and (proc.pending[1].startswith('/trace') or proc.pending[1].startswith('/finished'))
         step(proc)
-        emit('step %d' % proc.idx)
+        emit(('ustep %d' if unt else 'step %d') % proc.idx)
         k += 1
+
+
+def cmp(exp, got):
+    """A client whose next call goes to a node outside the model's world (`*`: a trace event or an exit summary
+    that `publish` writes) is compared without that field: the model only knows the tracked call that follows."""
+    if exp == got:
+        return True
+    if '/*/' not in exp:
+        return False
+    e, g = exp.split(' '), got.split(' ')
+    if len(e) != len(g):
+        return False
+    for x, y in zip(e, g):
+        if x == y:
+            continue
+        xs, ys = x.split('/'), y.split('/')
+        if x.startswith('sv') and len(xs) == len(ys) and len(xs) > 2 and xs[1] == '*' and \
+                xs[:1] == ys[:1] and xs[2:] == ys[2:]:
+            continue
+        return False
+    return True
